@@ -623,5 +623,35 @@ def replay(d):
 
 
 SELFTEST_NOTES = """
-(filled in below by the builder; see the end of this file)
+Binding demonstration (2026-10-04, all with `bin/verif check C04 --tier quick`, VERIF_SRC=<scratch worktree of /repo at
+de0c5c0 with hooks/H4-builtins.diff applied plus the one-line mutation>; machine load average was 130-200 while these ran,
+so the wall times (460-620 s) say nothing about an idle machine; CPU cost of one quick run is about 500 CPU-seconds).
+
+Unchanged tree (no hook in /repo yet): exit 0, "C04 quick: held", hooks_missing = [cfold, fint], 59 013 cases x 3 routes +
+11 591 cases on the q2v route, 70 known-finding keys hit, no other violation.  Same with the hook worktree (hooks_missing = [],
+32 920 cases confirmed folded by a cfold event, 80 054 events validated).
+
+Mutations (each compiled; each reported VIOLATION and exit 1; the known findings stayed suppressed):
+ m1 of_cfold.c  SIntPlus folds a - b instead of a + b        -> caught: SIntPlus on route q2i (6 argument classes, ~930 cases)
+                                                                 and again as REJECTed cfold hook events (same classes)
+ m2 fint.c      SIntLE evaluates a < b                         -> caught: SIntLE on q0i/q2i/q2v and fint hook events; the
+                                                                 interpreter also breaks library code, so many other builtins
+                                                                 on q0i are reported as "evaluator stopped"
+ m3 foam_c.h    fiSIntBit mask 1 << i instead of 1L << i       -> caught: SIntBit on q0i, q0c, q2i, q2v and fint hook events
+                                                                 (bit positions >= 31)
+ m4 genc.c      ccBValInfoTable maps SIntShiftDn to CCO_USh    -> caught: SIntShiftDn on q0c only (1 269 cases)
+ m5 of_peep.c   x * 2^k rewritten to a shift by k+1            -> caught: SIntTimes on q2v only (the route with a
+                                                                 non-constant first operand; the three-route scheme of the
+                                                                 design does not reach the algebraic simplifier)
+Corrupted events (TraceBuiltins, -workers 1): a cfold SIntPlus event with the result changed by one, a fint BIntTimes event
+with the result changed by one, a fint SIntLT event with the non-canonical boolean 2, and a second Observe of one input with a
+different digest were each printed as REJECT / DISAGREE (SUMMARY rejected = 3, disagreed = 1); the unmodified event was accepted.
+
+Candidate repairs (hooks/fix-C04-{cfold,fint-bool,timesmod,genc,runtime}.diff applied together with the hook diff): see
+the end of this note for the run; what remains are the two findings without a patch (SIntPlusMod overflow, SIntTimesModInv).
+
+False alarms met while building (fixed in the model/harness, never listed as findings): compiler warnings about stale .c
+files shifted the output lines of the -Q2 run; an interpreter abort (SIntTimesModInv "unimplemented") was attributed to the
+following case; CharMin/CharMax = 128/127 (CHAR_MIN/CHAR_MAX cast to unsigned char) and ArrToBInt of radix text, BIntShiftRem,
+BIntLength(0) were first given definitions the sources do not support: they are agreement-only now.
 """
